@@ -19,4 +19,8 @@ def atomicWriteSteps : List Step :=
     .defer [.closeDir],
     .call .fsyncDir .ret ]
 
+/-- expected copy of the fact `Gen.atomicWriteTmpDistinct`: the temporary name is `path + ".tmp"`, so the
+    hypothesis `tmp ≠ path` of the C05 theorems holds (`tempPath := path` would make the protocol work in place) -/
+def atomicWriteTmpDistinct : Bool := true
+
 end Lungo.Expected
